@@ -561,10 +561,22 @@ func runHistory(r *vh.Run, focus string, i int) {
 		nops = 100 + rng.Intn(80)
 		r.Count("churn_histories", 1)
 	}
+	// a few directory-store histories pause for more than a second now and then: the store looks at index.json again
+	// (it trusts what it has in memory for one second) and may reload it in the middle of the history
+	pauses := 0
+	if kind == vh.Dir && i%40 == 5 {
+		pauses = 4
+		r.Count("histories_with_mid_history_reloads", 1)
+	}
 	for op := 0; op < nops && !h.bad; op++ {
 		repo := "r"
 		if rng.Intn(6) == 0 && !churn {
 			repo = "r/n"
+		}
+		if pauses > 0 && op > 3 && rng.Intn(5) == 0 {
+			pauses--
+			time.Sleep(1100 * time.Millisecond)
+			h.w.T("PAUSE 1.1s")
 		}
 		if churn {
 			h.churnStep(repo)
